@@ -23,7 +23,7 @@ SPEC = {
     "pins": ["Runtime", "ObjectModel", "OutputHidden"],
     "technique": "Lean 4 invariant over the L2 interpreter (no `__` table or field is ever appended to the output, for every recipe, chain and fuel; the prefix is looked at only where a row is written) + pinned filter/guard expressions + real-run metamorphic twin (recipe vs its un-hidden renaming) + artefact scan of every output format and the mapping",
     "level_text": "Machine-checked proof that the reference interpreter never emits a hidden table or field and evaluates hidden fields exactly like visible ones; the two places where the real interpreter looks at the `__` prefix (the write guard in _generate_row and filter_row_values) are pinned from the AST; on the real code every generated recipe is compared with its un-hidden twin (values, counts, references and child rows must be identical after dropping the renamed names) and every artefact of every format (txt, json, csv folder incl. csvw metadata, sql script, sqlite database, CCI mapping) is scanned for `__` identifiers.",
-    "level_note": "Trusted: Lean kernel, py2lean, harness, the artefact decoders (csv, json, sqlite3, a regex scan of the SQL/debug text). `hidden_is_projection` between two *different* recipes is not proved in Lean (it would need a simulation relation across a renaming); it is decided by the metamorphic check. A lookup into a hidden table makes mapping generation raise KeyError: that is C16's finding D14, counted here and not re-reported.",
+    "level_note": "Trusted: Lean kernel, py2lean, harness, the artefact decoders (csv, json, sqlite3, a regex scan of the SQL/debug text). `hidden_is_projection` between two *different* recipes is not proved in Lean (it would need a simulation relation across a renaming); it is decided by the metamorphic check. The target of a visible field's lookup may name a hidden table (C16 demands that lookup); it is neither a step nor a field of the mapping and is not flagged.",
     "assumptions": [],
     "budget": {"quick": 600, "thorough": 3000},
 }
@@ -185,22 +185,6 @@ def formats_oracle(rep, rc, k):
 
         try:
             run(True)
-        except KeyError as e:
-            if str(e).strip("'\"").startswith("__"):
-                rep.count("mapping-keyerror-hidden-target (C16 D14)")
-                for p in (sqlp, dbp):
-                    if os.path.exists(p):
-                        os.remove(p)
-                shutil.rmtree(csvd); os.mkdir(csvd)
-                txt.seek(0); txt.truncate(); js.seek(0); js.truncate()
-                try:
-                    run(False)
-                except Exception as e2:  # noqa
-                    rep.count("formats-run-failed:" + type(e2).__name__)
-                    return
-            else:
-                rep.count("formats-run-failed:KeyError")
-                return
         except Exception as e:  # noqa: recipe errors etc. are not this oracle's business
             rep.count("formats-run-failed:" + common.outcome_of_exception(e).split(":")[0])
             return
@@ -264,9 +248,11 @@ def formats_oracle(rep, rc, k):
             m = yaml.safe_load(open(mapp)) or {}
             names = []
             for step, body in m.items():
-                names += IDENT.findall(step) + [body.get("sf_object")] + list((body.get("fields") or {}).keys() if isinstance(body.get("fields"), dict) else body.get("fields") or [])
-                for lk, lv in (body.get("lookups") or {}).items():
-                    names += [lk, lv.get("table") if isinstance(lv, dict) else None]
+                names += IDENT.findall(step) + [body.get("sf_object"), body.get("table")] + list((body.get("fields") or {}).keys() if isinstance(body.get("fields"), dict) else body.get("fields") or [])
+                # the *target* of a visible field's lookup may legitimately name a hidden table (the field held a
+                # reference into it, C16 asks for exactly that lookup): like a reference value in the text output it
+                # is neither a step nor a field of the mapping
+                names += list((body.get("lookups") or {}).keys())
             scan(rep, case, "mapping", [n for n in names if n])
     finally:
         shutil.rmtree(d, ignore_errors=True)
